@@ -806,10 +806,25 @@ class ExprRewriter(ast.NodeTransformer, EmitterMixin):
             ]
         else:
             self.generic_visit(node.args)
-        for elt in node.body:
+        for elt in node.body[self._num_docstring_stmts(node):]:
             self.visit(elt)
         node.decorator_list = self._visit_decorators(node)
         return node
+
+    @staticmethod
+    def _num_docstring_stmts(
+        node: Union[ast.FunctionDef, ast.AsyncFunctionDef, ast.ClassDef]
+    ) -> int:
+        # a wrapped string is no docstring any more: the statement inserter restores the pristine one for its own
+        # definitions, but nothing does for a definition nested in the guard-exempt copy of a loop or function body
+        if (
+            len(node.body) > 0
+            and isinstance(node.body[0], ast.Expr)
+            and isinstance(node.body[0].value, ast.Constant)
+            and isinstance(node.body[0].value.value, str)
+        ):
+            return 1
+        return 0
 
     def _visit_decorators(
         self, node: Union[ast.FunctionDef, ast.AsyncFunctionDef, ast.ClassDef]
@@ -841,8 +856,11 @@ class ExprRewriter(ast.NodeTransformer, EmitterMixin):
     def visit_ClassDef(self, node: ast.ClassDef):
         # the decorators of a class are decorators too
         decorator_list = node.decorator_list
+        docstring = node.body[: self._num_docstring_stmts(node)]
         node.decorator_list = []
+        node.body = node.body[len(docstring) :]
         self.generic_visit(node)
+        node.body = docstring + node.body
         node.decorator_list = decorator_list
         node.decorator_list = self._visit_decorators(node)
         return node
